@@ -43,7 +43,7 @@ claimed = {
 claimed.update({
  "C05": ("exploration", "fork", "seeded histories with differential fork points: observation before = after compact (all fields incl. claimed_at/created_at/updated_at, results, ready/blocked), second compact changes nothing (observation and event count), and the same generated continuation plus a full claim drain - run with identical simulated clock and entropy on the uncompacted and the compacted store - gives byte-identical replies and equal observations; histories include legacy untitled items, torn tails, clock ties and backward clock steps",
          "deterministic simulation: differential forks of the world with identical clock/entropy streams, observation equality"),
- "C12": ("exploration", "corrupt+seq", "storage-fault injection on the log itself (31 damage kinds at seeded positions) followed by all 26 commands per damaged log under the simulator: termination by watchdog, exit 0/1, no panic, explained failures naming file:line for non-JSON lines, repeat-read determinism across processes, syscall-level read purity, and event-list prefix preservation for successful mutations; plus the same purity/determinism/prefix oracles on valid histories",
+ "C12": ("exploration", "corrupt+seq", "storage-fault injection on the log itself (34 damage kinds, singly and combined, at seeded positions) followed by all 26 commands per damaged log under the simulator: termination by watchdog, exit 0/1, no panic, explained failures naming file:line for non-JSON lines, repeat-read determinism across processes, syscall-level read purity, and event-list prefix preservation for successful mutations; plus the same purity/determinism/prefix oracles on valid histories",
          "deterministic simulation: injected log corruption, syscall-trace read purity, cross-process determinism, history-prefix oracle"),
  "C18": ("exploration", "layout", "seeded sequential histories in which every command draws a fresh start directory and --dir spelling, over store layouts {plans-only, legacy events-only, both with a decoy, lock-less, shadowed by a decoy store in the enclosing directory}, with init and lock removal at seeded points; the sequential refinement oracle is the property (a write through one spelling is visible through all others, where names the project's .ergo, init changes nothing)",
          "deterministic simulation: seeded configurations (layout x start dir x --dir spelling), reference-model refinement"),
